@@ -7,7 +7,7 @@ ENTRY = dict(
          "groups and signature schemes are drawn from the WHOLE dictionaries are (a) rendered, from the parsed wire bytes, in the JSON format "
          "of ClientHelloSpec.UnmarshalJSON using the value-indexed names and imported, (b) imported raw by Fingerprinter.RawClientHello; both "
          "specs are applied to fresh connections with the same deterministic Config.Rand and the two wire hellos compared (suites, compression "
-         "methods, extension order, extension bodies) after replacing GREASE values by 0x0a0a and blanking key_exchange / padding / psk bodies. "
+         "methods, extension order, extension bodies) after replacing GREASE values by 0x0a0a and blanking key_exchange / psk bodies (the padding extension is compared: presence and body length, with explicit JSON len whenever the hello's padding is not what BoringPaddingStyle would pick; generated hellos are short/normal/long with padding Boring/1/17/100/300/random). "
          "Every name of every table the importer consults (zero-valued code points included) is part of some compared hello (cursors + closing pass) "
          "and is also imported alone and as a whole table through each of the 10 list-valued JSON members, 5-7 unknown spellings per member "
          "must be refused. The name lists and the code points the importer produced go to Coq (CImportG/CImport); unknown names must be refused. Parts "
